@@ -328,6 +328,15 @@ func (c *Ctx) watchdog() {
 // more than this machine has. Code that picks a path by runtime.GOMAXPROCS / NumCPU is exercised on every path that way.
 var ProcsSchedule = []int{0, 1, 2, 3, 0, 5, 7, 12, 0, 17, 24, 32}
 
+// ProcsFor returns the i-th processor count of the schedule (for oracles that walk through it themselves).
+func ProcsFor(i int) int {
+	p := ProcsSchedule[((i%len(ProcsSchedule))+len(ProcsSchedule))%len(ProcsSchedule)]
+	if p == 0 {
+		p = runtime.NumCPU()
+	}
+	return p
+}
+
 // RotateProcs is switched off by checks that set GOMAXPROCS themselves (C18).
 var RotateProcs = true
 
